@@ -70,7 +70,8 @@ def d1(chk, prog, ploidies=(2, 3)):
     tb.done("purity inversion does not reduce to the mixing model", sample=dict(clause="D1", mix="2^v := (p*n + (1-p)*x)/r", result="n"))
     fp = prog.fn("cnvlib.call.absolute_pure")
     tb2 = Table(chk, "inversion-identity", "absolute_pure == r 2^v on {auto, X, Y} x ploidy x reference sex x naming", fp.loc(), fp.qn)
-    for P, hap, style in itertools.product(ploidies, [False, True], ["", "chr"]):
+    # (ploidy 1 too: a haploid genome has 1 // 2 = 0 reference copies of Y, and of X under a male reference -- the pure path must answer 0 there, not clamp to 1)
+    for P, hap, style in itertools.product((1,) + tuple(p_ for p_ in ploidies if p_ != 1), [False, True], ["", "chr"]):
         W.reset()
         it = Interp(prog, model)
         cl = ["auto", "x", "auto", "y", "x"]
